@@ -8,14 +8,15 @@
    turbotunnel qc <cap> <ops>        QueuePacketConn (no expiry: black-box clock)
         i<addr>:<payload> QueueIncoming | r<n> ReadFrom(buf[n]) | w<addr>:<payload> WriteTo
         o<addr> OutgoingQueue+recv | c Close
-   turbotunnel qx <cap> <timeout> <ops>   QueuePacketConn model with explicit clock (model only)
-        as qc plus w<addr>:<payload>@<now>, o<addr>@<now>, h<k> held recv, e<now> sweep
-   turbotunnel qm <cap> <timeout> <ops>...  the same [qstep]/[qrun], outgoing side only, TIED to the Go
-        code (in-package driver harness/overlay/common/turbotunnel/zz_verif_c17_test.go: clientMapInner with
-        explicit clock + the records' channels; cap must be queueSize):
-        w<addr>:<payload>@<now> | o<addr>@<now> | h<k> | e<now>
+   turbotunnel qm <cap> <timeout> <ops>...  the same [qstep]/[qrun] with an explicit clock, EVERY operation of
+        [qop], TIED to the Go code (in-package driver harness/overlay/common/turbotunnel/zz_verif_c17_test.go: a
+        QueuePacketConn whose client map has no sweeper goroutine; the clock readings of the case are put
+        into the records; cap must be queueSize):
+        w<addr>:<payload>@<now> | o<addr>@<now> | h<k> held recv | e<now> sweep | i<addr>:<payload> | r<n> | c Close
         each answer = <result>/<live records addr.seen.qid=contents, by address>/<closed queues, by identity>;
-        a receive on a closed queue answers D *)
+        a receive on a closed queue answers D
+   redial / redials / redialq: the whole answer is  !fuel  when a run to quiescence stopped because its fuel ran
+        out and not because no internal step was enabled: a state that can still move is never taken for a settled one *)
 From Coq Require Import List NArith ZArith Bool Arith String.
 From Snow Require Import Model.RedialQueue.
 From Snow Require Import Lib.Wire Model.GoHeap Model.ClientMap Model.QueueConn Model.Redial.
@@ -202,9 +203,6 @@ Definition live_print (c : cmap) : bytes :=
 Definition dead_print (c : cmap) : bytes :=
   or_e (join [SEMI] (map nat_print (sort_nat (map fst (dead c))))).
 
-Definition qm_op_ok (o : qop) : bool :=
-  match o with QWrite _ _ _ | QOutRecv _ _ | QHeldRecv _ | QSweep _ => true | _ => false end.
-
 Definition qm_res_print (s : qconn) (o : qop) (r : qout) : bytes :=
   match o with
   | QHeldRecv k =>
@@ -305,18 +303,33 @@ Section RedialRun.
   Variable ecap : nat.
   Variable slow : bool.     (* conn.Close() returns only when the script says so *)
 
-  Fixpoint closure (fuel : nat) (s : rstate) : list rstate :=
-    match fuel with
-    | O => [s]
-    | S f =>
-        match filter (fun l => enabled ecap QCAP s l && negb (slow && is_close_label l)) (internal_labels s) with
-        | [] => [s]
-        | en => flat_map (fun l => match step ecap QCAP s l with Some s' => closure f s' | None => [] end) en
+  (* the internal steps enabled in s *)
+  Definition movable (s : rstate) : list label :=
+    filter (fun l => enabled ecap QCAP s l && negb (slow && is_close_label l)) (internal_labels s).
+
+  (* all quiescent states reachable by internal steps; the flag says that some branch was cut because the
+     fuel ran out while a step was still enabled (the state returned for that branch is NOT quiescent) *)
+  Fixpoint closure (fuel : nat) (s : rstate) : list rstate * bool :=
+    match movable s with
+    | [] => ([s], false)
+    | en =>
+        match fuel with
+        | O => ([s], true)
+        | S f =>
+            fold_right (fun l acc =>
+                          match step ecap QCAP s l with
+                          | Some s' => let '(r, b) := closure f s' in (r ++ fst acc, b || snd acc)
+                          | None => acc
+                          end) ([], false) en
         end
     end.
 
-  Definition settle (cs : list config) : list config :=
-    dedupe [] (flat_map (fun c => map (fun s => (s, snd c)) (closure 64 (fst c))) cs).
+  Definition CLOSURE_FUEL : nat := 64.
+
+  (* configurations, and whether a closure ran out of fuel so far *)
+  Definition settle (cf : list config * bool) : list config * bool :=
+    let rs := map (fun c => let '(l, b) := closure CLOSURE_FUEL (fst c) in (map (fun s => (s, snd c)) l, b)) (fst cf) in
+    (dedupe [] (flat_map fst rs), snd cf || existsb snd rs).
 
   (* answer codes: 0 "-", 1 "n", 2 "ok", 3 "E", 4 "p", 5 "B" *)
   Definition apply_tok (t : rtok) (c : config) : config :=
@@ -351,10 +364,10 @@ Section RedialRun.
              match step ecap QCAP s LUClose with Some s' => mk s' (a :: ans) | None => mk s (a :: ans) end
     end.
 
-  Fixpoint rrun (toks : list rtok) (cs : list config) : list config :=
+  Fixpoint rrun (toks : list rtok) (cf : list config * bool) : list config * bool :=
     match toks with
-    | [] => cs
-    | t :: toks' => rrun toks' (settle (map (apply_tok t) cs))
+    | [] => cf
+    | t :: toks' => rrun toks' (settle (map (apply_tok t) (fst cf), snd cf))
     end.
 End RedialRun.
 
@@ -377,8 +390,11 @@ Definition config_print (c : config) : bytes :=
 Open Scope N_scope.
 Definition BAR : N := 124.
 
+Definition MARK_FUEL : bytes := bs "!fuel".
+
 Definition redial_run (ecap : nat) (slow : bool) (toks : list rtok) : bytes :=
-  join [BAR] (map config_print (rrun ecap slow toks (settle ecap slow [(rs_init, ([], []))]))).
+  let '(cs, nofuel) := rrun ecap slow toks (settle ecap slow ([(rs_init, ([], []))], false)) in
+  if nofuel then MARK_FUEL else join [BAR] (map config_print cs).
 
 (* ---------------------------------------------------------------- redial at the capacity of its queues *)
 (*  turbotunnel redialq <ecap> <qcap> <tokens>: the same scripts as `redial`, with repetition <tok>*<n>, run
@@ -453,18 +469,19 @@ Section RedialQRun.
   Definition qapply (t : rtok) (qc : qconfig) : qconfig :=
     let c' := apply_tok ecap t (fst qc) in (c', ghost_tok t (fst (fst qc)) c' (snd qc)).
 
-  Definition qsettle (cs : list qconfig) : list qconfig :=
-    let out := flat_map (fun qc => map (fun s => ((s, snd (fst qc)), ghost_sync s (snd qc)))
-                                       (closure ecap false 64 (fst (fst qc)))) cs in
-    match out with
-    | [_] => out
-    | _ => qdedupe [] out
-    end.
+  Definition qsettle (cf : list qconfig * bool) : list qconfig * bool :=
+    let rs := map (fun qc => let '(l, b) := closure ecap false CLOSURE_FUEL (fst (fst qc)) in
+                             (map (fun s => ((s, snd (fst qc)), ghost_sync s (snd qc))) l, b)) (fst cf) in
+    let out := flat_map fst rs in
+    (match out with
+     | [_] => out
+     | _ => qdedupe [] out
+     end, snd cf || existsb snd rs).
 
-  Fixpoint qrrun (toks : list rtok) (cs : list qconfig) : list qconfig :=
+  Fixpoint qrrun (toks : list rtok) (cf : list qconfig * bool) : list qconfig * bool :=
     match toks with
-    | [] => cs
-    | t :: toks' => qrrun toks' (qsettle (map (qapply t) cs))
+    | [] => cf
+    | t :: toks' => qrrun toks' (qsettle (map (qapply t) (fst cf), snd cf))
     end.
 End RedialQRun.
 
@@ -483,8 +500,8 @@ Definition qconfig_print (qc : qconfig) : bytes :=
    ++ bs " got=" ++ dotted (map range_print (ranges (List.rev (g_got (snd qc))))))%list.
 
 Definition redialq_run (ecap : nat) (toks : list rtok) : bytes :=
-  join [BAR] (map qconfig_print
-    (qrrun ecap toks (qsettle ecap [((rs_init, ([], [])), mkqg 0 [] [] 0 [] [])]))).
+  let '(cs, nofuel) := qrrun ecap toks (qsettle ecap ([((rs_init, ([], [])), mkqg 0 [] [] 0 [] [])], false)) in
+  if nofuel then MARK_FUEL else join [BAR] (map qconfig_print cs).
 Open Scope N_scope.
 
 (* the op list of a qc case may be split over several space separated fields (Wire.split_on is
@@ -512,7 +529,7 @@ Definition run (args : list bytes) : bytes :=
         | b :: rest' =>
             match dec_parse_nat a, zdec_parse b, chunks_parse qop_parse rest' with
             | Some cap, Some timeout, Some ops =>
-                if forallb qm_op_ok ops then list_print (qmrun cap timeout ops qc_empty) else ERR_BADCASE
+                list_print (qmrun cap timeout ops qc_empty)
             | _, _, _ => ERR_BADCASE
             end
         | [] => ERR_BADCASE
@@ -540,11 +557,6 @@ Definition run (args : list bytes) : bytes :=
           if beq op (bs "redialq") then
             match dec_parse_nat a, dec_parse_nat b, option_map (@List.concat rtok) (list_parse rtoks_parse1 c) with
             | Some ecap, Some qcap, Some toks => if Nat.eqb qcap QCAP then redialq_run ecap toks else ERR_BADCASE
-            | _, _, _ => ERR_BADCASE
-            end
-          else if beq op (bs "qx") then
-            match dec_parse_nat a, zdec_parse b, list_parse qop_parse c with
-            | Some cap, Some timeout, Some ops => list_print (map qout_print (snd (qrun cap timeout ops qc_empty)))
             | _, _, _ => ERR_BADCASE
             end
           else ERR_BADCASE
